@@ -181,9 +181,10 @@ def c10Holds (E : ReEnv) (cfg : Cfg) (e : Entry) (sr : SReq) (o : Obs) : Bool :=
   let routed := match e with
     | .dispatch | .serveDispatch => true
     | _ => false
-  -- recovery covers the chains that contain filters or route functions; a plain http.Handler
-  -- registered with Handle is neither, its panic propagates
-  let covered := routed || panicFromFilter E cfg e sr
+  -- recovery covers the chains the framework builds: routed requests, and HandleWithFilter when
+  -- there are container filters; a plain http.Handler registered with Handle is neither a filter
+  -- nor a route function, its panic propagates
+  let covered := routed || ((e == .muxHandleF || e == .serveHandleF) && !cfg.cfilters.isEmpty)
   if cfg.recover && covered then
     o.escaped.isNone && ledgerOK &&
       (cfg.recoverScript.isNone || o.recov == (if raw.escaped.isSome then 1 else 0)) &&
@@ -198,9 +199,9 @@ def f09Class (E : ReEnv) (cfg : Cfg) (e : Entry) (sr : SReq) : Bool :=
      | some rid => (routeX cfg rid).enc == some false
      | none => false)
 
-/-- F18: the chain HandleWithFilter builds has no recovery around it -/
-def f18Class (E : ReEnv) (cfg : Cfg) (e : Entry) (sr : SReq) : Bool :=
-  (e == .muxHandleF || e == .serveHandleF) && cfg.recover && panicFromFilter E cfg e sr
+/-- F18 was repaired (HandleWithFilter now recovers): the class is empty and kept only so that
+    the protocol of the driver stays the same -/
+def f18Class (_E : ReEnv) (_cfg : Cfg) (_e : Entry) (_sr : SReq) : Bool := false
 
 /-- the observation the MODEL's result amounts to (for a request served on a fresh ledger) -/
 def obsOf (r : Result) : Obs :=
